@@ -11,7 +11,7 @@ cd $WT
 {
 echo "== $P $X on $(git rev-parse --short HEAD)"
 echo "-- demo on clean tree:"; PYTHONPATH=$WT timeout 120 /venv/bin/python /tmp/seed/out/$P/demo$X.py 2>&1 | tail -3; echo "exit=$?"
-if git apply --3way /tmp/seed/out/$P/mut$X.diff 2>/tmp/seed/val/apply_$$.err || git apply /tmp/seed/out/$P/mut$X.diff; then
+if git apply /tmp/seed/out/$P/mut$X.diff 2>/tmp/seed/val/apply_$$.err || git apply --3way /tmp/seed/out/$P/mut$X.diff 2>>/tmp/seed/val/apply_$$.err; then
   echo "-- patch applied"; git diff --stat | tail -1
   echo "-- demo on mutated tree:"; PYTHONPATH=$WT timeout 120 /venv/bin/python /tmp/seed/out/$P/demo$X.py > /tmp/seed/val/demo_$$.out 2>&1; echo "exit=$?"; tail -3 /tmp/seed/val/demo_$$.out
   echo "-- suite on mutated tree:"; PYTHONPATH=$WT timeout 1500 /venv/bin/python -m pytest -q -p no:cacheprovider --timeout=900 2>&1 | grep -aE "^(FAILED|ERROR)|passed|failed" | tail -8
